@@ -47,3 +47,16 @@ func VStepTypes(body []Instruction, ints []int64, typs []reflect.Type) ([]int64,
 	err := vm.Run(fn, nil, nil)
 	return vm.regs.int, err
 }
+
+// VStepF is VStepTypes with a float register bank; it returns both banks.
+func VStepF(body []Instruction, ints []int64, floats []float64, typs []reflect.Type) ([]int64, []float64, error) {
+	vm := &VM{env: &env{}, main: true}
+	vm.regs.int = ints
+	vm.regs.float = floats
+	b := make([]Instruction, 0, len(body)+1)
+	b = append(b, body...)
+	b = append(b, Instruction{Op: OpReturn})
+	fn := &Function{Pkg: "main", Name: "f", Body: b, Types: typs, InstructionInfo: map[Addr]InstructionInfo{}}
+	err := vm.Run(fn, nil, nil)
+	return vm.regs.int, vm.regs.float, err
+}
